@@ -683,6 +683,21 @@ def _azure(ctx: Ctx) -> None:
             ctx.need(a_len is not None, f'{AZ}::{qual}: `{pf.nsrc(dc)}`: the length passed is not an attribute of the stream; not recognised')
             msg = f'the download is opened with length=`{pf.nsrc(kw["length"])}`, not `{f_len}`'
         ctx.check(not msg, 'R2', cons, msg, m.path, dc.lineno)
+        # a download (re)opened at the stream's offset INSIDE the loop that fills the read buffer: the buffer already holds bytes past that offset
+        # (the offset only advances by what was handed out), so the re-opened stream delivers them a second time
+        for lp in [x for x in ast.walk(f) if isinstance(x, (ast.While, ast.For, ast.AsyncFor)) and any(y is dc for y in ast.walk(x))]:
+            fills = [y for y in ast.walk(lp) if isinstance(y, ast.Call) and isinstance(y.func, ast.Attribute) and y.func.attr in ('extend', 'append')
+                     and isinstance(y.func.value, ast.Attribute) and pf.nsrc(y.func.value.value) == 'self']
+            if not fills or a_off != off_attr:
+                continue
+            buf = pf.nsrc(fills[0].func.value)
+            resets = [y for y in ast.walk(lp) if (isinstance(y, ast.Assign) and any(pf.nsrc(t) == buf for t in y.targets))
+                      or (isinstance(y, ast.Call) and isinstance(y.func, ast.Attribute) and y.func.attr == 'clear' and pf.nsrc(y.func.value) == buf)]
+            ctx.need(not resets, f'{AZ}::{qual}: the buffer {buf} is reset inside the loop that re-opens the download; not analysed')
+            ctx.bad('R2', cons + '::re-opened while the buffer holds data',
+                    f'`{pf.nsrc(dc)}` re-opens the download at `{f_off}` inside the loop that fills `{buf}`: `{f_off}` counts only the bytes handed to the caller, the '
+                    f'bytes already buffered lie behind it and are downloaded and appended AGAIN - e.g. read(10) with 4 bytes buffered when the connection drops returns bytes '
+                    f'0..3 followed by 0..5 instead of 0..9', m.path, dc.lineno)
     _offset_length_typestate(ctx, rm, rd_inl, sname, off_attr, len_attr, inlined)
     ctx.unit('functions', 3)
 
